@@ -72,6 +72,8 @@ def build(rng, seed, Fd, Ts, L, shape):
 
 
 SHAPES = [None, 3, (2,), (3, 2)]
+# shapes assigned later: also same rank / same number of links, other entries
+SHAPES_SET = SHAPES + [(2, 3), (6,), (1, 6), (3,), (1, 2)]
 TS = [1e-9, 3.25e-8, 1e-4, 1e-3, 0.37, 1.0]
 NS = [1, 2, 3, 7, 100, 1000, 100000]
 
@@ -151,7 +153,8 @@ def case_history(ctx, rng, idx):
             # the shape is (re)assigned through the public setter -- possibly to
             # the value it already has.  New phases are drawn; the model learns
             # them from the RandomState proxy and from the next samples.
-            newshape = SHAPES[int(rng.integers(0, len(SHAPES)))] if rng.random() < 0.6 else shape
+            newshape = SHAPES_SET[int(rng.integers(0, len(SHAPES_SET)))] if rng.random() < 0.6 \
+                else shape
             ndraw = len(rec.draws)
             okc, _ = ctx.call("request-shape", setattr, g, "shape", newshape,
                               cls="shape-setter", detail={**tag, "new_shape": newshape})
